@@ -118,6 +118,10 @@ def convert(t, var_names, assms, to_real, ctx):
         elif t.is_implies():
             return z3.Implies(rec(t.arg1), rec(t.arg))
         elif t.is_equals():
+            if t.arg1.get_type().is_fun():
+                # A function becomes a Z3 declaration, and == between two
+                # declarations is a Python comparison of the declarations.
+                raise Z3Exception("convert: equality between functions " + repr(t))
             return rec(t.arg1) == rec(t.arg)
         elif t.is_conj():
             return z3.And(rec(t.arg1), rec(t.arg)) if ctx is None else z3.And(rec(t.arg1), rec(t.arg), ctx)
